@@ -158,6 +158,10 @@ def corpus():
                   RETRY(1)], [b"a", b"b", b"x"]))
     cs.append(mk([AP(O(b"a", sn=[b"x"])), AP(O(b"a")), RETRY(1), AP(O(b"b", sn=[b"x"])), RETRY(3), RETRY(1), DEL(b"a"),
                   RETRY(1), RETRY(3)], [b"a", b"b", b"x"]))
+    # value -> removed -> identical value restored: DenyAllRequests gate (status 429), aliases, certificate, CA
+    cs.append(mk([AP(O(b"a", sn=[b"x"], cert=1, key=1, ca=2, gates=[(1, 1)])), AP(O(b"a")),
+                  AP(O(b"a", sn=[b"x"], cert=1, key=1, ca=2, gates=[(1, 1)])), AP(O(b"a", ann=3, sn=[b"x"])),
+                  AP(O(b"a", sn=[b"x"], cert=1, key=1, ca=2, gates=[(1, 1)]))], [b"a", b"x"]))
     # DenyAllRequests gate, forced collisions (admission bypassed), delete of a never created cluster
     cs.append(mk([AP(O(b"a", sn=[b"x"], gates=[(1, 1)])), AP(O(b"b", sn=[b"x"]), force=True), AP(O(b"x"), force=True),
                   DEL(b"a"), RETRY(1), RETRY(2), DEL(b"x"), DEL(b"b"), DEL(b"c")], [b"a", b"b", b"x", b"c"]))
